@@ -136,7 +136,8 @@ PROPS["C18"] = dict(
     harnesses={
         "c18_shared_one_timer": dict(cap=2400),
         "c18_shared_two_timers": dict(cap=3600, tier="thorough"),
-        "c18_local_timer": dict(cap=2400),
+        "c18_local_timer_recorded": dict(cap=2400),
+        "c18_local_timer_discarded_or_dropped": dict(cap=2400),
         "c18_observe_closure_duration": dict(cap=2400),
     },
     functions=["HistogramTimer::{new, observe_duration, stop_and_record, stop_and_discard, observe, drop}", "LocalHistogramTimer::{new, observe_duration, stop_and_record, stop_and_discard, observe, drop}",
@@ -153,7 +154,9 @@ PROPS["C12"] = dict(
     harnesses={
         "c12_int_counter_two_locals_two_ops": dict(cap=1800),
         "c12_float_counter_flush_twice": dict(cap=1800),
-        "c12_local_histogram_one_op": dict(cap=2400),
+        "c12_local_histogram_flush_and_clear": dict(cap=2400),
+        "c12_local_histogram_clone_and_direct": dict(cap=2400),
+        "c12_local_histogram_drop_flushes": dict(cap=2400),
     },
     functions=["GenericLocalCounter::{inc_by, inc, get, reset, flush, clone}", "GenericCounter::{inc_by, reset, get, local}", "LocalHistogramCore::{observe, clear, flush}",
                "LocalHistogram::{observe, flush, clear, clone, drop, get_sample_count, get_sample_sum}", "HistogramCore::{observe, proto, sample_sum, sample_count}"],
@@ -208,9 +211,10 @@ PROPS["C03"] = dict(
     hosts={"histogram": ["c03.rs"]},
     jobs=4,
     harnesses={
-        "c03_sequential_history_4": dict(cap=3600),
+        "c03_sequence_direct_three_collects": dict(cap=3600),
+        "c03_sequence_batches_three_collects": dict(cap=3600),
+        "c03_sequence_empty_flush_and_getters": dict(cap=3600),
         "c03_quiescent_collect_returns_immediately": dict(cap=1800),
-        "c03_sequential_history_6": dict(cap=7200, tier="thorough"),
     },
     functions=["HistogramCore::observe", "HistogramCore::proto", "HistogramCore::sample_sum", "HistogramCore::sample_count", "LocalHistogramCore::observe", "LocalHistogramCore::flush", "LocalHistogramCore::clear"],
     bounds="symbolic histories of 4 (quick) / 6 (thorough) operations + a final collect, each operation one of observe(v) / local observe(v) / local flush / collect / get_sample_count / get_sample_sum, v in {0,1,2,3}; 1 bucket; sequential (the concurrent scenarios are C02's S4 and c03_batch_flush_three_collects, thorough tier of C02)",
@@ -233,6 +237,7 @@ PROPS["C17"] = dict(
     outside="ProtobufEncoder (default-feature build; its encode is check_metric_family + the protobuf crate's writer); arguments of unbounded size; allocation failure. The other listed entry points are checked for panics inside the harnesses of C05, C06, C08 and C09",
     assumptions=["std::fmt::format stubbed (the lower-cased type name is not the subject)", "<f64 as Display>::fmt stubbed by a bit-pattern marker", "text::find_first_occurence stubbed by a naive byte search (memchr uses cpuid)"],
 )
+
 
 # ------------------------------------------------------------------------------------------------
 MANIFEST_TEXT = {}
